@@ -1693,6 +1693,11 @@ func parseActionList(masked string, original string, prevActions []*action, putA
 				}
 			} else {
 				offset := len(actionNameRegexp.FindString(spec))
+				if offset != len(actionNameRegexp.FindString(specLower)) {
+					// The action was recognized in the lower-cased copy, but the name
+					// is not where we expect it in the original (e.g. "prİnt")
+					return nil, errors.New("unknown action: " + spec)
+				}
 				var actionArg string
 				if spec[offset] == ':' {
 					if specIndex == len(originalStrings)-1 {
